@@ -346,13 +346,7 @@ def judge_puff(ctx, c, out):
 
 # ---------------------------------------------------------------------------------------------------------
 def run(ctx):
-    import genall
-    st = genall.run(["Codec"])
-    for g, s in st.items():
-        ctx.log("c2g", g, s)
-        if s.startswith("FAILED"):
-            ctx.tie_broken("translator group " + g, s)
-    ctx.props()
+    cc.translate_and_prove(ctx, ["Codec"])
     exes = cc.build(ctx, static=True)
     dcases = gen_dec_cases(ctx)
     pcases = gen_puff_cases(ctx)
